@@ -162,8 +162,8 @@ Qed.
 
 Lemma coh_ents_aset : forall bs dv es k c, coh_ents bs dv es = true -> coh bs dv c = true -> coh_ents bs dv (aset k c es) = true.
 Proof.
-  induction es as [|[k' v] r IH]; intros k c H Hc; cbn.
-  - now rewrite Hc.
+  induction es as [|[k' v] r IH]; intros k c H Hc; cbn [aset].
+  - rewrite coh_ents_cons, Hc. reflexivity.
   - rewrite coh_ents_cons in H. apply andb_true_iff in H as [H1 H2].
     destruct (String.eqb k k'); rewrite coh_ents_cons.
     + now rewrite Hc, H2.
@@ -172,7 +172,7 @@ Qed.
 
 Lemma coh_ents_adel : forall bs dv es k, coh_ents bs dv es = true -> coh_ents bs dv (adel k es) = true.
 Proof.
-  induction es as [|[k' v] r IH]; intros k H; cbn; [reflexivity|].
+  induction es as [|[k' v] r IH]; intros k H; cbn [adel]; [reflexivity|].
   rewrite coh_ents_cons in H. apply andb_true_iff in H as [H1 H2].
   destruct (String.eqb k k'); [exact H2|]. rewrite coh_ents_cons, H1. cbn. auto.
 Qed.
